@@ -117,6 +117,19 @@ type GuardDecl struct {
 	Spec  *SpecFile
 }
 
+// ProtectsDecl: the state a mutex field protects. When the mutex is acquired, that state is
+// whatever other goroutines left there: it is havocked, the invariant is assumed, and old() of
+// that state is rebased to the moment of acquisition (contracts then describe the critical section).
+type ProtectsDecl struct {
+	Type      string // struct type key
+	Field     string // mutex field name
+	Targets   []SExpr
+	Invariant SExpr
+	Spec      *SpecFile
+	File      string
+	Line      int
+}
+
 type ExternDefault struct {
 	Pattern string
 	Pure    bool
@@ -139,6 +152,7 @@ type Contracts struct {
 	Axioms      []*Clause
 	AxiomSpec   map[*Clause]*SpecFile
 	Guards      []*GuardDecl
+	Protects    []*ProtectsDecl
 	Externs     []ExternDefault
 	Files       []string
 	Immutable   map[string]bool      // "TypeKey.field"
@@ -525,6 +539,36 @@ func (cs *Contracts) LoadFile(path, pkgPath string, fromRepo bool) error {
 			c.Label = strings.TrimSpace(rest[:i])
 			cs.Axioms = append(cs.Axioms, c)
 			cs.AxiomSpec[c] = sf
+		case "protects":
+			// protects Type.mutexfield: target, target invariant expr
+			i := strings.Index(rest, ":")
+			if i < 0 {
+				return errf("protects Type.mutex: targets invariant expr")
+			}
+			head := strings.TrimSpace(rest[:i])
+			body := rest[i+1:]
+			j := strings.LastIndex(head, ".")
+			pd := &ProtectsDecl{Type: sf.expandQualified(head[:j]), Field: head[j+1:], Spec: sf, File: path, Line: line}
+			inv := ""
+			if k := strings.Index(body, " invariant "); k >= 0 {
+				inv = strings.TrimSpace(body[k+len(" invariant "):])
+				body = body[:k]
+			}
+			for _, part := range splitTopLevel(body, ',') {
+				e, err := parseSpecExpr(part)
+				if err != nil {
+					return errf("%v", err)
+				}
+				pd.Targets = append(pd.Targets, e)
+			}
+			if inv != "" {
+				e, err := parseSpecExpr(inv)
+				if err != nil {
+					return errf("%v", err)
+				}
+				pd.Invariant = e
+			}
+			cs.Protects = append(cs.Protects, pd)
 		case "guard":
 			// guard Type.field by mutexfield   |  guard var name by mutexvar
 			parts := strings.Fields(rest)
